@@ -505,7 +505,7 @@ def matched_facts(jm: JoinModel):
     other = 0
     for L in jm.matched_loops:
         for e in jm.events_in(L):
-            if id(e) in em_ids or e.kind != "call":
+            if id(e) in em_ids or e.kind != "call" or jm.infeasible(e):
                 continue
             if callee(e.term) in _PURE_ITER or matched_set_add(jm, e):
                 continue
